@@ -144,7 +144,7 @@ PROPS = {
                                        "C01_oneshot_queue", "C01_oneshot_no_panic", "C01_state_queue", "C01_state_no_panic",
                                        "C01_timer_heap", "C01_timer_no_panic"],
                   "Properties/C20.v": ["C20_list_refines_deque", "C20_heap_refines_tree"]},
-        prims=["event", "mutex", "semaphore", "mpmc", "oneshot", "state", "timer"], keys=["q", "r"], direct_keys=["q"], assumptions=[SCHED_NOTE],
+        prims=["event", "mutex", "semaphore", "mpmc", "oneshot", "state", "timer"], keys=["qs", "r"], direct_keys=["qs"], assumptions=[SCHED_NOTE],
         level_text="For each of the seven primitive models, theorem over every reachable state (any history, any number of futures, fair/unfair, every capacity, borrowed/shared handles): the wait queue (timer: the heap) holds exactly the alive, non-terminated futures in the linked state, each once; no contract-respecting call returns a panic or leaves the intrusive-container protocol (add of a linked node / removal of a non-member). Combined with C20 (pointer-level list and heap are memory-safe and exact under exactly that protocol) this is the 'no access to a dropped future' claim. Correspondence: after EVERY operation of every explored history the hook snapshot of the real queue (node addresses mapped to live futures; an address of a dropped future prints as DANGLING) must equal the model's queue, and no call may panic or crash.",
         level_note="Rust aliasing-model UB is not expressible. The harness keeps dropped futures' memory mapped so that a dangling entry is observed rather than crashing. " + SCHED_NOTE,
     ),
